@@ -1265,3 +1265,172 @@ def sym_iterable_storage(vc):
         check(it, 'iter-hands-out-the-rechained-iterable-itself', r3 is cur and not takes(it.path.events[n1:]))
         cover(it, 'reachable')
     vc.explore(fk, thunk, min_paths=4)
+
+
+# ------------------------------------------------------------------------------------------------ small objects of the core
+
+def sym_base_objects(vc):
+    """constructors and one-line methods of the framework core that every pipeline goes through:
+       DataStreamProcessor.__init__ / __call__ / process_datapackage, DataStream.__init__ / _process / merge_stats,
+       LazyIterator.__init__, PackageWrapper.__init__ / __iter__, Flow.__init__, the helper processors' constructors,
+       conditional.__init__.
+       What is stated: every instance gets containers OF ITS OWN (no state shared between two step objects or two datastreams),
+       arguments are stored where the other contracts read them, `step(source, position)` returns the step itself, a step chained
+       without a source gets a NEW empty datastream, merge_stats is the left-to-right fold of dict.update over the stats list
+       (later steps win, the steps' own dicts are not written)."""
+    import z3
+    from pyvc.api import (real_function, check, cover, Opaque, UFunc, ufunc, PyList, PyDict, Instance, sym_int, sym_row, sym_str,
+                          LoopSpec, StrS, same_row, Row)
+    from pyvc.symex import PyExc
+    from pyvc import lib
+    H = 'dataflows/helpers/'
+    fk = vc.under_contract(B + 'datastream_processor.py', ['DataStreamProcessor', '__init__'])
+    vc.under_contract(B + 'datastream_processor.py', ['DataStreamProcessor', '__call__'])
+    vc.under_contract(B + 'datastream_processor.py', ['DataStreamProcessor', 'process_datapackage'])
+    vc.under_contract(B + 'datastream_processor.py', ['LazyIterator', '__init__'])
+    vc.under_contract(B + 'datastream.py', ['DataStream', '_process'])
+
+    def thunk(it):
+        m = it.module('dataflows.base.datastream')
+        npk = [0]
+
+        def Package(it_, a, k):
+            npk[0] += 1
+            p = Opaque('Package', 'fresh_package_%d' % npk[0])
+            p.made_with = (tuple(a), dict(k))
+            return p
+        m.attrs['Package'] = UFunc('Package', Package, True)
+        a, b = mk_dsp(it), mk_dsp(it)
+        for nm, d in (('a', a), ('b', b)):
+            check(it, 'new-step-has-empty-stats-and-no-source-package-position[%s]' % nm, isinstance(d.attrs.get('stats'), PyDict) and
+                  not d.attrs['stats'].d and d.attrs.get('source', 0) is None and d.attrs.get('datapackage', 0) is None and
+                  d.attrs.get('position', 0) is None)
+        check(it, 'two-steps-never-share-a-stats-dict', a.attrs['stats'] is not b.attrs['stats'])
+        src, pos = Opaque('DataStream', 'upstream'), sym_int(it, 'pos')
+        r = it.call(a, [src, pos])
+        check(it, 'chaining-returns-the-step-itself', r is a)
+        check(it, 'chaining-records-source-and-position', a.attrs['source'] is src and a.attrs['position'] is pos)
+        r = it.call(b, [])
+        s1 = b.attrs['source']
+        ok = isinstance(s1, Instance) and s1.cls.name == 'DataStream'
+        check(it, 'a-step-chained-without-a-source-gets-an-empty-datastream', ok and isinstance(s1.attrs['dp'], Opaque) and
+              s1.attrs['dp'].made_with == ((), {}) and isinstance(s1.attrs['res_iter'], PyList) and not s1.attrs['res_iter'].items
+              and isinstance(s1.attrs['stats'], PyList) and not s1.attrs['stats'].items)
+        check(it, 'position-defaults-to-none', b.attrs['position'] is None)
+        c = mk_dsp(it)
+        it.call(c, [])
+        s2 = c.attrs['source']
+        if ok and isinstance(s2, Instance):
+            check(it, 'every-empty-datastream-is-a-new-one', s1 is not s2 and s1.attrs['dp'] is not s2.attrs['dp'] and
+                  s1.attrs['res_iter'] is not s2.attrs['res_iter'] and s1.attrs['stats'] is not s2.attrs['stats'])
+            check(it, 'a-datastream-is-its-own-result', it.call(it.lib.getattr_(it, s1, '_process'), []) is s1)
+        DS = real_function(it, 'dataflows.base.datastream', 'DataStream')
+        dp, ri, st = Opaque('Package', 'dp'), Opaque('res_iter', 'ri'), PyList(['S'])
+        ds = it.call(DS, [dp, ri, st])
+        check(it, 'datastream-stores-what-it-is-given', ds.attrs['dp'] is dp and ds.attrs['res_iter'] is ri and ds.attrs['stats'] is st)
+        # an EMPTY stats list / resource list that is handed over is still the caller's object (`x or default` would drop it)
+        e_ri, e_st = PyList([]), PyList([])
+        ds2 = it.call(DS, [dp, e_ri, e_st])
+        check(it, 'an-empty-list-handed-over-is-kept-not-replaced', ds2.attrs['res_iter'] is e_ri and ds2.attrs['stats'] is e_st)
+        pkg = Opaque('Package', 'pkg')
+        check(it, 'default-package-phase-is-the-identity', it.call(it.lib.getattr_(it, a, 'process_datapackage'), [pkg]) is pkg)
+        LI = real_function(it, 'dataflows.base.datastream_processor', 'LazyIterator')
+        g = ufunc('get_iterator')
+        li = it.call(LI, [g])
+        check(it, 'lazy-iterator-keeps-the-function-uncalled', li.attrs['get_iterator'] is g and
+              not [e for e in it.path.events if e.kind == 'Call'])
+        cover(it, 'reachable')
+    paths = vc.explore(fk, thunk)
+    expect_no_raise_or_same(vc, fk, paths)
+
+    fk2 = vc.under_contract(B + 'datastream.py', ['DataStream', 'merge_stats'])
+
+    def thunk2(it):
+        DS = real_function(it, 'dataflows.base.datastream', 'DataStream')
+        from pyvc.api import Stream
+        stats = Stream('stats', lambda it_: it_.fresh_row('step_stats'))
+        ds = it.call(DS, [Opaque('Package', 'dp'), PyList([]), stats])
+
+        def at_start(it, env, s):
+            ret = env.lookup('ret')
+            return s, s.snapshot(), ret, (ret.snapshot() if isinstance(ret, Row) else None)
+
+        def at_end(it, env, cap, events):
+            s, s0, ret, r0 = cap
+            now = env.lookup('ret')
+            if r0 is None or not isinstance(now, Row):
+                check(it, 'accumulator-is-a-dict', False)
+                return
+            k = z3.Const('k', StrS)
+            check(it, 'one-step-of-the-fold-is-dict-update-later-wins', z3.ForAll([k], z3.And(
+                now.dom[k] == z3.Or(r0.dom[k], s0.dom[k]),
+                z3.Implies(s0.dom[k], now.val[k] == s0.val[k]),
+                z3.Implies(z3.And(r0.dom[k], z3.Not(s0.dom[k])), now.val[k] == r0.val[k]))))
+            check(it, 'accumulator-object-kept', now is ret)
+            check(it, 'the-steps-own-stats-are-not-written', same_row(s, s0))
+            cover(it, 'iter-reachable')
+
+        def at_entry(it, env):
+            ret = env.lookup('ret')
+            if isinstance(ret, PyDict):
+                check(it, 'fold-starts-from-an-empty-dict', not ret.d)
+            elif isinstance(ret, Row):
+                k = z3.Const('k', StrS)
+                check(it, 'fold-starts-from-an-empty-dict', z3.ForAll([k], z3.Not(ret.dom[k])))
+            else:
+                check(it, 'fold-starts-from-an-empty-dict', False)
+        it.loops['DataStream.merge_stats#L0'] = LoopSpec(at_entry=at_entry, at_start=at_start, at_end=at_end, as_row=('ret',),
+                                                        at_exit=lambda it, env: it.path.info.__setitem__('acc', env.lookup('ret')))
+        r = it.call(it.lib.getattr_(it, ds, 'merge_stats'), [])
+        if 'acc' in it.path.info:
+            check(it, 'returns-the-accumulated-dict', r is it.path.info['acc'])
+            check(it, 'whole-stats-list-folded', stats.drained is True)
+    paths = vc.explore(fk2, thunk2, min_paths=2)
+    expect_no_raise_or_same(vc, fk2, paths)
+
+    fk3 = vc.under_contract(B + 'package_wrapper.py', ['PackageWrapper', '__init__'])
+    vc.under_contract(B + 'package_wrapper.py', ['PackageWrapper', '__iter__'])
+    vc.under_contract(B + 'flow.py', ['Flow', '__init__'])
+    vc.under_contract(H + 'row_processor.py', ['row_processor', '__init__'])
+    vc.under_contract(H + 'rows_processor.py', ['rows_processor', '__init__'])
+    vc.under_contract(H + 'datapackage_processor.py', ['datapackage_processor', '__init__'])
+    vc.under_contract('dataflows/processors/conditional.py', ['conditional', '__init__'])
+
+    def thunk3(it):
+        PW = real_function(it, 'dataflows.base.package_wrapper', 'PackageWrapper')
+        pkg = Opaque('Package', 'pkg')
+        pkg.attrs['__kinds__'] = ('Package',)
+        pw = it.call(PW, [pkg])
+        check(it, 'package-wrapper-holds-the-package', pw.attrs['pkg'] is pkg)
+        streams = Opaque('res_iter', 'streams')
+        pw.attrs['it'] = streams
+        check(it, 'iterating-the-wrapper-iterates-the-streams-installed-on-it', it.call(it.lib.getattr_(it, pw, '__iter__'), []) is streams)
+        try:
+            it.call(PW, [Opaque('dict', 'not_a_package')])
+            check(it, 'anything-but-a-package-is-rejected', False)
+        except PyExc as pe:
+            check(it, 'anything-but-a-package-is-rejected', pe.exc.cls == 'AssertionError')
+        F = real_function(it, 'dataflows.base.flow', 'Flow')
+        l1, l2 = Opaque('step', 'l1'), Opaque('step', 'l2')
+        f = it.call(F, [l1, l2])
+        ch = f.attrs['chain']
+        items = list(ch) if isinstance(ch, tuple) else getattr(ch, 'items', None)
+        check(it, 'flow-keeps-all-links-in-the-order-given', items is not None and len(items) == 2 and items[0] is l1 and items[1] is l2)
+        f0 = it.call(F, [])
+        ch0 = f0.attrs['chain']
+        check(it, 'empty-flow-has-an-empty-chain', (isinstance(ch0, tuple) and not ch0) or (isinstance(ch0, PyList) and not ch0.items))
+        for mod, cls, attr in (('row_processor', 'row_processor', 'func'), ('rows_processor', 'rows_processor', 'func'),
+                               ('datapackage_processor', 'datapackage_processor', 'func')):
+            C = real_function(it, 'dataflows.helpers.' + mod, cls)
+            u = ufunc('user_' + cls)
+            inst = it.call(C, [u])
+            check(it, 'helper-keeps-the-user-callable[%s]' % cls, inst.attrs.get(attr) is u and isinstance(inst.attrs.get('stats'), PyDict)
+                  and not [e for e in it.path.events if e.kind == 'Call'])
+        CO = real_function(it, 'dataflows.processors.conditional', 'conditional')
+        p, fl = ufunc('predicate'), Opaque('Flow', 'subflow')
+        c = it.call(CO, [p, fl])
+        check(it, 'conditional-keeps-predicate-and-flow', c.attrs.get('predicate') is p and c.attrs.get('flow') is fl and
+              isinstance(c.attrs.get('stats'), PyDict))
+        cover(it, 'reachable3')
+    paths = vc.explore(fk3, thunk3)
+    expect_no_raise_or_same(vc, fk3, paths)
